@@ -94,9 +94,13 @@ class ControlledPool:
         n = len(tasks)
         assign = list(sched['assign']) if sched and sched.get('assign') is not None else [0] * n
         order = list(sched['order']) if sched and sched.get('order') else list(range(n))
-        if len(assign) != n or sorted(order) != list(range(n)):
-            raise AssertionError('schedule does not fit the map call: %r %r n=%d' % (assign, order, n))
-        CALLS.append(dict(n=n, nodes=self.nodes, assign=assign, order=order, kind='imap' if ordered else 'uimap'))
+        fits = len(assign) == n and sorted(order) == list(range(n))
+        if not fits:
+            # the tree under test cut the work into a different number of tasks than the schedule was written for (e.g. batching that
+            # depends on --cpus): keep the schedule's shape as far as possible instead of failing - the output comparison decides
+            assign = [assign[i % len(assign)] if assign else 0 for i in range(n)]
+            order = [i for i in order if i < n] + [i for i in range(n) if i not in order]
+        CALLS.append(dict(n=n, nodes=self.nodes, assign=assign, order=order, kind='imap' if ordered else 'uimap', fits=fits))
         workers = {w: _Worker() for w in sorted(set(assign))}
         results = {}
         try:
